@@ -62,8 +62,16 @@ fn vv_forms(meth: &str, a: &VV, b: &VV) -> Vec<(&'static str, Option<f64>)> {
 
 pub fn replay(cases: &str, verdicts: &str) {
     let mut v = Verdicts::new(verdicts, "C05");
-    for_each_line(cases, |c| {
-        v.cases += 1;
+    for_each_line(cases, |c0| {
+      v.cases += 1;
+      // homogeneity (Inv_Homogeneous): operands scaled by powers of two, expected product scaled by their product
+      for (sa, sb) in [(0i32, 0i32), (-60, 60), (-55, -55), (300, 200), (-500, 0)] {
+        if (sa, sb) != (0, 0) && v.cases % 3 != 0 { continue; }
+        let scale = |m: &Value, e: i32| -> Value { if m.get("panic").is_some() { return m.clone(); } let mut m = m.clone(); let f = 2f64.powi(e);
+            let d: Vec<Value> = m["data"].as_array().unwrap().iter().map(|x| json!(x.as_f64().unwrap() * f)).collect(); m["data"] = json!(d); m };
+        let mut c = c0.clone();
+        if (sa, sb) != (0, 0) { c["a"] = scale(&c0["a"], sa); c["b"] = scale(&c0["b"], sb); c["exp"] = scale(&c0["exp"], sa + sb); c["xtx"] = scale(&c0["xtx"], 2 * sa); c["scale"] = json!([sa, sb]); }
+        let sc = if (sa, sb) == (0, 0) { String::new() } else { " scaled".to_string() };
         let a = mat_of(&c["a"]);
         let b = mat_of(&c["b"]);
         let (ta, tb) = (c["ta"].as_bool().unwrap(), c["tb"].as_bool().unwrap());
@@ -71,7 +79,7 @@ pub fn replay(cases: &str, verdicts: &str) {
         let bad = c["bad"].as_i64().unwrap() == 1;
         let exp: Option<MM> = if c["exp"].get("panic").is_some() { None } else { Some(mat_of(&c["exp"])) };
         let shape = if m == 1 && n == 1 { "inner" } else if l == 1 { "outer" } else if m == l && l == n { "square" } else { "rect" };
-        let class = format!("t{}{} {} {}", ta as u8, tb as u8, shape, if bad { "nonconformable" } else { "conformable" });
+        let class = format!("t{}{} {} {}{}", ta as u8, tb as u8, shape, if bad { "nonconformable" } else { "conformable" }, sc);
         if v.cases % 300 == 1 {
             v.sample(c.clone());
         }
@@ -123,10 +131,11 @@ pub fn replay(cases: &str, verdicts: &str) {
                 for (form, g) in vv_forms(meth, &av, &bv) {
                     let ok = match (&g, &exp) { (None, None) => true, (Some(r), Some(e)) => *r == e.data[0], _ => false };
                     let lc = format!("len{} {}", if l % 8 == 0 { "%8=0".to_string() } else if l < 8 { "<8".to_string() } else { ">8".to_string() }, if bad { "mismatch" } else { "ok" });
-                    v.check(ok, &format!("Vector.{}(Vector) {}", meth, form), &lc, &c, json!(g));
+                    v.check(ok, &format!("Vector.{}(Vector) {}", meth, form), &format!("{}{}", lc, sc), &c, json!(g));
                 }
             }
         }
+      }
     });
     v.finish();
 }
